@@ -692,7 +692,7 @@ __CPROVER_requires(TC_N(tconnect) >= 1 ==> TC_TRACK_READY(tconnect, TC_T(tconnec
 __CPROVER_requires(TC_N(tconnect) >= 2 ==> (TRK_FRESH(TC_T(tconnect, 1)) && TRK_NUM_OK(TC_T(tconnect, 1))))
 __CPROVER_requires(TC_N(tconnect) >= 2 ==> TRK_IPS_FRESH(TC_T(tconnect, 1)))
 /* (the local address is borrowed from the caller: both tracks of a happy-eyeballs pair point at the same one) */
-__CPROVER_requires(TC_N(tconnect) >= 2 ==> (TC_T(tconnect, 1)->local_ip == TC_T(tconnect, 0)->local_ip))
+__CPROVER_requires(TC_N(tconnect) >= 2 ==> TRK_LOCAL_FRESH(TC_T(tconnect, 1)))
 __CPROVER_requires(TC_N(tconnect) >= 2 ==> (TC_TRACK_READY(tconnect, TC_T(tconnect, 1), xv_qb) && TC_T(tconnect, 0)->fd6 == -1 && TC_T(tconnect, 1)->fd4 == -1))
 __CPROVER_requires(TRK_GHOST_OK_S(32) && xv_regs >= 2 && xv_timers >= 2 && xv_fk >= 0 && xv_fk < XV_NFD)
 __CPROVER_assigns(tconnect->fd4, tconnect->fd6, *fd, *scope, *tcp_opts, TCN_GHOST_ASSIGNS)
